@@ -139,6 +139,25 @@ def compare(chk, rule, section, cur, what, floor, row_filter=None, fn_filter=Non
                     missing.remove(r)
                     extra.remove(x)
                     break
+    # merged / split statements: two reviewed rows with one effect (`set_tokenpos(pos)` at the end of two branches) replaced by
+    # one statement behind the join, or the reverse -- the same decision when the single condition is logically the disjunction
+    # of the others
+    for fn, (missing, extra) in diffs.items():
+        for (ones, manys, fone, fmany) in ((extra, missing, lambda g: guards.FORMULAS.get((fn, tuple(g))), lambda g: oforms.get(fn, {}).get("\x1f".join(g))),
+                                           (missing, extra, lambda g: oforms.get(fn, {}).get("\x1f".join(g)), lambda g: guards.FORMULAS.get((fn, tuple(g))))):
+            for x in list(ones):
+                e1, g1 = json.loads(x)
+                f1 = fone(g1)
+                group = [m for m in manys if json.loads(m)[0] == e1]
+                if f1 is None or len(group) < 2 or len(group) > 4:
+                    continue
+                fs = [fmany(json.loads(m)[1]) for m in group]
+                if any(f is None for f in fs):
+                    continue
+                if guards.equivalent(f1, ["or"] + fs) is True:
+                    ones.remove(x)
+                    for m in group:
+                        manys.remove(m)
     # relocation: rows that left a reviewed function and reappear, with the same effect, in a function the reviewed table does
     # not know (a helper extracted from it) are the same decision made in another place - not a difference
     newfns = [fn for fn in diffs if fn not in ora]
